@@ -49,7 +49,7 @@ func init() {
 		ID:    "C19",
 		Level: "model_checking",
 		Rule: "E4: (schedules) every unordered pair of the function alphabet (one entry per exported query/codec function of bitmap, bmtree, bitstr, bitword, sigbits + TailBitmap.Get/Get1) as a 2-thread program on SHARED inputs, all schedules with ≤P preemptions, and every triple over a 16-entry sub-alphabet with ≤P-1 preemptions; scheduling points are inserted automatically (vinstr, from the current working tree) before every statement that mentions a package-level variable, a method receiver or an alias of either; oracle: per-thread results equal the sequential results, exactly one outcome per program, package state unchanged; plus a COLD-START exploration in which every schedule of every same-function pair (thorough: and of every pair of the sub-alphabet) runs in a fresh process with inputs built by reference code, so that first-use windows of lazily initialised state are inside the schedules. " +
-			"(footprint, no scheduling) every alphabet entry × every variant of its parameter grid × 4 input sets with all slice/string arguments in read-only mmap'ed memory (any store faults), package-state deep hash unchanged by every call after a full warm-up pass, results identical in forward and reverse order and identical between the plain and the instrumented binary. (race pass, supplementary) the same bodies free-running under -race in a fresh process. " +
+			"(footprint, no scheduling) every alphabet entry × every variant of its parameter grid × 4 input sets with all slice/string arguments in read-only mmap'ed memory (any store faults), package-state deep hash unchanged by every call after a full warm-up pass, results identical in forward and reverse order and identical between the plain and the instrumented binary; every returned value is kept (the value itself, not a copy) and rendered again after the whole pass, after one element was appended to every returned slice, and - on fresh arguments - after every argument buffer was overwritten as a caller reusing its buffers does (a result must not be a view of argument memory). (race pass, supplementary) the same bodies free-running under -race in a fresh process. " +
 			"states = distinct schedules (choice-tree nodes), transitions = scheduling points executed; non-trivial schedules are those with at least one preemption.",
 		Assumptions: []string{
 			"preemption only at instrumented statements, at statement granularity, sequentially consistent memory; unsynchronised accesses elsewhere are left to the exact argument footprint and the (sampling) race pass",
@@ -107,9 +107,28 @@ const c19Canary = 0xC5
 
 type heapAlloc struct {
 	checks *[]func() string
+	pokes  *[]func()
 }
 
-func newHeapAlloc() heapAlloc { return heapAlloc{checks: new([]func() string)} }
+func newHeapAlloc() heapAlloc { return heapAlloc{checks: new([]func() string), pokes: new([]func())} }
+
+func (h heapAlloc) onPoke(f func()) {
+	if h.pokes != nil {
+		*h.pokes = append(*h.pokes, f)
+	}
+}
+
+// overwriteArguments does what a caller reusing its buffers does after the calls
+// have returned: every element of every argument slice handed out is overwritten
+// (strings themselves are immutable; the elements of a []string are replaced).
+func (h heapAlloc) overwriteArguments() {
+	if h.pokes == nil {
+		return
+	}
+	for _, f := range *h.pokes {
+		f()
+	}
+}
 
 func (h heapAlloc) watch(f func() string) {
 	if h.checks != nil {
@@ -137,6 +156,11 @@ func (h heapAlloc) u64s(s []uint64) []uint64 {
 		r[i] = 0xC5C5C5C5C5C5C5C5
 	}
 	n := len(s)
+	h.onPoke(func() {
+		for i := range r {
+			r[i] = ^r[i] ^ 0x5a5a5a5a5a5a5a5a
+		}
+	})
 	h.watch(func() string {
 		for i := n; i < len(r); i++ {
 			if r[i] != 0xC5C5C5C5C5C5C5C5 {
@@ -154,6 +178,11 @@ func (h heapAlloc) i32s(s []int32) []int32 {
 		r[i] = -0x3a3a3a3b
 	}
 	n := len(s)
+	h.onPoke(func() {
+		for i := range r {
+			r[i] = ^r[i] ^ 0x5a5a5a5a
+		}
+	})
 	h.watch(func() string {
 		for i := n; i < len(r); i++ {
 			if r[i] != -0x3a3a3a3b {
@@ -171,6 +200,11 @@ func (h heapAlloc) bytes(s []byte) []byte {
 		r[i] = c19Canary
 	}
 	n := len(s)
+	h.onPoke(func() {
+		for i := range r {
+			r[i] = ^r[i] ^ 0x5a
+		}
+	})
 	h.watch(func() string {
 		for i := n; i < len(r); i++ {
 			if r[i] != c19Canary {
@@ -191,6 +225,11 @@ func (h heapAlloc) strs(s []string) []string {
 		r[i] = "\xc5canary"
 	}
 	n := len(s)
+	h.onPoke(func() {
+		for i := range r {
+			r[i] = "\x5aoverwritten by the caller"
+		}
+	})
 	h.watch(func() string {
 		for i := n; i < len(r); i++ {
 			if r[i] != "\xc5canary" {
@@ -484,7 +523,7 @@ func c19Alphabet() []c19Call {
 			return pr(bitword.BitWord[c19Widths[k%4]].FromStr(in.Strs[k/4]))
 		}, true},
 		{"bitword.ToStr", func(in *c19In) int { return len(in.WordLists) }, func(in *c19In, k int) interface{} {
-			return fmt.Sprintf("%x", bitword.BitWord[c19Widths[k%4]].ToStr(in.WordLists[k]))
+			return c19Hex(bitword.BitWord[c19Widths[k%4]].ToStr(in.WordLists[k])) // the string itself: re-read after the pass
 		}, false},
 		{"bitword.Get", func(in *c19In) int { return 4 * len(in.S) }, func(in *c19In, k int) interface{} {
 			w := c19Widths[k%4]
@@ -497,9 +536,16 @@ func c19Alphabet() []c19Call {
 		{"bitword.FromStrs/ToStrs", func(*c19In) int { return 8 }, func(in *c19In, k int) interface{} {
 			bw := bitword.BitWord[c19Widths[k%4]]
 			if k >= 4 {
-				return fmt.Sprintf("%x", bw.ToStrs(bw.FromStrs(in.Strs[:2]))) // short: for schedule exploration
+				return c19HexList(bw.ToStrs(bw.FromStrs(in.Strs[:2]))) // short: for schedule exploration
 			}
-			return fmt.Sprintf("%x", bw.ToStrs(bw.FromStrs(in.Strs)))
+			return c19HexList(bw.ToStrs(bw.FromStrs(in.Strs)))
+		}, false},
+		{"bitword.ToStrs", func(*c19In) int { return 4 }, func(in *c19In, k int) interface{} {
+			var lists [][]byte
+			for i := k; i < len(in.WordLists); i += 4 { // the word lists of width c19Widths[k]
+				lists = append(lists, in.WordLists[i])
+			}
+			return c19HexList(bitword.BitWord[c19Widths[k]].ToStrs(lists))
 		}, false},
 		{"bitword.FromStrs", func(*c19In) int { return 4 }, func(in *c19In, k int) interface{} {
 			return bitword.BitWord[c19Widths[k%4]].FromStrs(in.Strs[:3]) // the slices themselves: re-read and poked after the pass
@@ -566,9 +612,22 @@ func c19AppendPoke(v reflect.Value, depth int) {
 	}
 }
 
+// c19Hex / c19HexList: a returned string (list) kept AS RETURNED - not copied - and
+// printed in hex.
+type c19Hex string
+type c19HexList []string
+
+// c19Str renders a returned value. The rendering never shares memory with the
+// value (a returned string is copied), so that it can be compared with a later
+// rendering of the same value.
 func c19Str(v interface{}) string {
-	if s, ok := v.(string); ok {
-		return s
+	switch x := v.(type) {
+	case string:
+		return strings.Clone(x)
+	case c19Hex:
+		return fmt.Sprintf("%x", string(x))
+	case c19HexList:
+		return fmt.Sprintf("%x", []string(x))
 	}
 	return fmt.Sprintf("%v", v)
 }
@@ -586,9 +645,11 @@ type c19Retained struct {
 	Then, Now     string
 }
 
+const c19OverwriteTag = "after the caller overwrote its argument buffers: "
+
 // c19ForwardKeep keeps every returned value until the end of the pass and then
 // prints it again.
-func c19ForwardKeep(alpha []c19Call, in *c19In) ([][]string, []c19Retained) {
+func c19ForwardKeep(alpha []c19Call, in *c19In, overwriteArgs ...func()) ([][]string, []c19Retained) {
 	// no garbage collection during the pass: what a sync.Pool hands back must not
 	// depend on when the collector happens to run (the pass allocates a few MB)
 	defer debug.SetGCPercent(debug.SetGCPercent(-1))
@@ -630,6 +691,12 @@ func c19ForwardKeep(alpha []c19Call, in *c19In) ([][]string, []c19Retained) {
 		fresh[i] = append([]string(nil), out[i]...)
 	}
 	recheck("after appending to every returned slice: ")
+	// last: the caller reuses its own buffers. A returned value (a string above all: Go strings
+	// are immutable) must not be a view of argument memory.
+	for _, f := range overwriteArgs {
+		f()
+		recheck(c19OverwriteTag)
+	}
 	return fresh, bad
 }
 
@@ -693,6 +760,20 @@ func c19Footprint(c *mc.Ctx) (digest string) {
 			}
 		}
 		ar.free()
+		// (3) no returned value is a view of argument memory: on fresh arguments, keep every
+		// result, then overwrite every argument buffer as a caller reusing its buffers does
+		ha2 := newHeapAlloc()
+		_, kept := c19ForwardKeep(alpha, c19Build(set, ha2), ha2.overwriteArguments)
+		for _, r := range kept {
+			if strings.HasPrefix(r.Now, c19OverwriteTag) {
+				c.Fail(6<<50|int64(set)<<40|int64(r.Call)<<20|int64(r.Variant), "argview", "argview", c19Case{Call: alpha[r.Call].Name, Variant: r.Variant, Input: set}, "value returned earlier now reads "+clipS(r.Now), "value as returned: "+clipS(r.Then))
+			}
+		}
+		for ci := range alpha {
+			c.Count(int64(len(fwd[ci])), int64(len(fwd[ci])))
+			c.Expect(int64(len(fwd[ci])))
+			c.Add("returned_values_rechecked_after_overwriting_the_arguments", int64(len(fwd[ci])))
+		}
 	}
 	debug.SetPanicOnFault(false)
 	c.ForceSample(c19Case{Call: alpha[3].Name, Variant: 5, Input: 1, Note: "footprint: arguments mapped read-only"})
@@ -939,6 +1020,19 @@ func c19Judge(kind string, raw json.RawMessage) (string, string, error) {
 		fwd, retained := c19ForwardKeep(alpha, heap)
 		for _, r := range retained {
 			if r.Call == ci && r.Variant == cs.Variant {
+				return "value returned earlier now reads " + clipS(r.Now), "value as returned: " + clipS(r.Then), nil
+			}
+		}
+		return "value as returned: " + clipS(fwd[ci][cs.Variant]), "value as returned: " + clipS(fwd[ci][cs.Variant]), nil
+	case "argview":
+		ci := find(cs.Call)
+		if ci < 0 {
+			return "", "", fmt.Errorf("unknown call %q", cs.Call)
+		}
+		ha := newHeapAlloc()
+		fwd, kept := c19ForwardKeep(alpha, c19Build(cs.Input, ha), ha.overwriteArguments)
+		for _, r := range kept {
+			if r.Call == ci && r.Variant == cs.Variant && strings.HasPrefix(r.Now, c19OverwriteTag) {
 				return "value returned earlier now reads " + clipS(r.Now), "value as returned: " + clipS(r.Then), nil
 			}
 		}
